@@ -20,6 +20,7 @@ func runR3(a *Analyzer, r *Results) {
 	runStorageSlots(a, r)
 	runSingletons(a, r)
 	runInPlace(a, r)
+	runRoundBookkeeping(a, r)
 }
 
 // ---------------------------------------------------------------- L1.start / L1.setview: no live view without an armed timer
@@ -428,7 +429,7 @@ func runStorageLog(a *Analyzer, r *Results) {
 							why = "the entry at this key may already exist and is overwritten (no preceding comma-ok lookup of the same map and key on the 'absent' branch)"
 						}
 					}
-					r.Check("ST.firstwins", props("C10", "C01", "C09"), "a log entry is written only under a key that a preceding lookup found absent (first message wins per key; an accepted proposal, PREPARE, COMMIT or vote is never replaced), except by the end-of-height disposal", shortName(f)+"|"+PP(c.Term(x.Map)), a.P.InstrPos(in), okc, why, "A")
+					r.Check("ST.firstwins", props("C10", "C01", "C09", "C03"), "a log entry is written only under a key that a preceding lookup found absent (first message wins per key; an accepted proposal, PREPARE, COMMIT or vote is never replaced), except by the end-of-height disposal", shortName(f)+"|"+PP(c.Term(x.Map)), a.P.InstrPos(in), okc, why, "A")
 				}
 			}
 		}
@@ -988,5 +989,266 @@ func runInPlace(a *Analyzer, r *Results) {
 	}
 	if n == 0 {
 		r.Check("A1.inplace", props("C09", "C07", "C11", "C17"), "a slice received from somebody else (parameter, field, call result) is never compacted or filtered in place: appending through a reslice of it (s[:0], s[:n]) overwrites the elements its owner still reads", "none", a.P.Pos(a.P.Func("services/termincommittee.NewTermInCommittee").Pos()), true, "", "W")
+	}
+}
+
+// ---------------------------------------------------------------- H6.atomic / Z2.sites: the worker's round bookkeeping is all-or-nothing
+
+// errFailingSucc: if block b ends in an If that tests the error result of `call` against nil, the index of the successor
+// taken when the call FAILED (-1 otherwise).
+func errFailingSucc(b *ssa.BasicBlock, call *ssa.Call) int {
+	ifi, ok := b.Instrs[len(b.Instrs)-1].(*ssa.If)
+	if !ok {
+		return -1
+	}
+	fromCall := func(v ssa.Value) bool {
+		if v == ssa.Value(call) {
+			return true
+		}
+		ex, ok := v.(*ssa.Extract)
+		return ok && ex.Tuple == ssa.Value(call)
+	}
+	cond := ifi.Cond
+	// bool verdict: if ok {..} / if !ok {..}
+	neg := false
+	if u, isU := cond.(*ssa.UnOp); isU && u.Op == token.NOT {
+		cond, neg = u.X, true
+	}
+	if fromCall(cond) && isBoolType(cond.Type()) {
+		if neg {
+			return 0 // !ok is true: failed
+		}
+		return 1
+	}
+	bo, ok := ifi.Cond.(*ssa.BinOp)
+	if !ok || (bo.Op != token.NEQ && bo.Op != token.EQL) {
+		return -1
+	}
+	x, y := bo.X, bo.Y
+	if c, isC := x.(*ssa.Const); isC && c.IsNil() {
+		x, y = y, x
+	}
+	if c, isC := y.(*ssa.Const); !isC || !c.IsNil() {
+		return -1
+	}
+	if !fromCall(x) || !isErrorType(x.Type()) {
+		return -1
+	}
+	if bo.Op == token.NEQ {
+		return 0
+	}
+	return 1
+}
+
+// mustReachAfterSuccess: every path from `call` (having succeeded) to a return of its function passes an instruction
+// satisfying pred; returns the position of an offending return otherwise.
+func mustReachAfterSuccess(a *Analyzer, call *ssa.Call, pred func(ssa.Instruction) bool) (bool, string) {
+	return mustReachAfterSuccessN(a, call, pred, 0)
+}
+
+func mustReachAfterSuccessN(a *Analyzer, call *ssa.Call, pred func(ssa.Instruction) bool, depth int) (bool, string) {
+	blk := call.Block()
+	start := 0
+	for i, in := range blk.Instrs {
+		if in == ssa.Instruction(call) {
+			start = i + 1
+		}
+	}
+	seen := map[*ssa.BasicBlock]bool{}
+	bad := ""
+	escapes := false
+	var walk func(b *ssa.BasicBlock, idx int) bool
+	walk = func(b *ssa.BasicBlock, idx int) bool {
+		for i := idx; i < len(b.Instrs); i++ {
+			in := b.Instrs[i]
+			if pred(in) {
+				return true
+			}
+			switch in.(type) {
+			case *ssa.Return:
+				bad = a.P.InstrPos(in)
+				escapes = true
+				return true // judged at the callers below
+			case *ssa.Panic:
+				return true
+			}
+		}
+		skip := errFailingSucc(b, call)
+		for si, s := range b.Succs {
+			if si == skip || seen[s] {
+				continue
+			}
+			seen[s] = true
+			if !walk(s, 0) {
+				return false
+			}
+		}
+		return true
+	}
+	walk(blk, start)
+	if !escapes {
+		return true, ""
+	}
+	// the function hands the successful outcome back to its callers (a helper that returns a verdict): each caller must
+	// do what is required after ITS call succeeded
+	f := call.Parent()
+	if depth >= 3 || token.IsExported(f.Name()) {
+		return false, bad
+	}
+	n := 0
+	for _, g := range a.P.Funcs {
+		for _, gb := range g.Blocks {
+			for _, gi := range gb.Instrs {
+				gc, isCall := gi.(*ssa.Call)
+				if !isCall || gc.Call.StaticCallee() != f {
+					continue
+				}
+				n++
+				if ok, b2 := mustReachAfterSuccessN(a, gc, pred, depth+1); !ok {
+					return false, b2
+				}
+			}
+		}
+	}
+	if n == 0 {
+		return false, bad
+	}
+	return true, ""
+}
+
+func runRoundBookkeeping(a *Analyzer, r *Results) {
+	termField := func(addr ssa.Value) bool {
+		fa, ok := addr.(*ssa.FieldAddr)
+		if !ok {
+			return false
+		}
+		pt, ok := fa.X.Type().Underlying().(*types.Pointer)
+		if !ok || typeShort(pt.Elem()) != "leanhelix.WorkerLoop" {
+			return false
+		}
+		st, ok := pt.Elem().Underlying().(*types.Struct)
+		if !ok {
+			return false
+		}
+		return strings.Contains(typeShort(st.Field(fa.Field).Type()), "LeanHelixTerm")
+	}
+	isTermStore := func(in ssa.Instruction) bool {
+		st, ok := in.(*ssa.Store)
+		return ok && termField(st.Addr)
+	}
+	isNewTermStore := func(in ssa.Instruction) bool {
+		st, ok := in.(*ssa.Store)
+		if !ok || !termField(st.Addr) {
+			return false
+		}
+		if c, isC := st.Val.(*ssa.Const); isC && c.IsNil() {
+			return false
+		}
+		return true
+	}
+	isDrain := func(in ssa.Instruction) bool {
+		ci, ok := in.(ssa.CallInstruction)
+		if !ok {
+			return false
+		}
+		sc := ci.Common().StaticCallee()
+		return sc != nil && funcID(sc) == idE2
+	}
+	nSet := 0
+	for _, f := range a.P.Funcs {
+		if funcPkgPath(f) != modPath {
+			continue
+		}
+		for _, b := range f.Blocks {
+			for _, in := range b.Instrs {
+				call, ok := in.(*ssa.Call)
+				if !ok {
+					continue
+				}
+				sc := call.Call.StaticCallee()
+				if sc == nil {
+					continue
+				}
+				switch {
+				case shortName(sc) == "state.SetHeightAndResetView":
+					nSet++
+					ok1, bad1 := mustReachAfterSuccess(a, call, isNewTermStore)
+					ok2, bad2 := mustReachAfterSuccess(a, call, isDrain)
+					why := ""
+					if !ok1 {
+						why = "after the height was advanced, " + shortName(f) + " can return at " + bad1 + " without having installed a term for the new height (the old term stays the handler of a height it does not belong to)"
+					} else if !ok2 {
+						why = "after the height was advanced, " + shortName(f) + " can return at " + bad2 + " without switching the height filter to the new term (ConsumeCacheMessages)"
+					}
+					r.Check("H6.atomic", props("C13", "C16", "C17", "C14"), "starting a round is all-or-nothing: once the height has been advanced every path installs the term built for the new height and hands it to the height filter; every refusal (stale context, failed increment) comes before the state changes, so a term that was built (and has armed its timer) is never dropped uninstalled", shortName(f), a.P.InstrPos(in), ok1 && ok2, why, "P")
+				}
+			}
+		}
+	}
+	if nSet == 0 {
+		r.Undecided = append(r.Undecided, "no SetHeightAndResetView call in the worker (H6.atomic anchor)")
+	}
+	// Z2.sites: a term is disposed only on the way out of the worker or when it is being replaced
+	run := a.P.Func("(*leanhelix.WorkerLoop).Run")
+	nDisp := 0
+	var judge func(site ssa.Instruction, depth int) (bool, string)
+	judge = func(site ssa.Instruction, depth int) (bool, string) {
+		f := site.Parent()
+		okHere := mustReach(site, func(in ssa.Instruction) bool {
+			if isTermStore(in) {
+				return true
+			}
+			if _, isRet := in.(*ssa.Return); isRet && f == run {
+				return true // leaving the event loop
+			}
+			return false
+		})
+		if okHere {
+			return true, ""
+		}
+		if f == run || depth > 3 {
+			return false, shortName(f) + " goes on with the disposed term still installed"
+		}
+		// a helper that only disposes: judged at each of its call sites
+		n := 0
+		for _, g := range a.P.Funcs {
+			for _, gb := range g.Blocks {
+				for _, gi := range gb.Instrs {
+					if ci, isCall := gi.(ssa.CallInstruction); isCall && ci.Common().StaticCallee() == f {
+						n++
+						if ok, why := judge(gi, depth+1); !ok {
+							return false, why + " (after " + shortName(f) + " at " + a.P.InstrPos(gi) + ")"
+						}
+					}
+				}
+			}
+		}
+		if n == 0 {
+			return false, shortName(f) + " disposes the term and has no caller that replaces it or leaves the loop"
+		}
+		return true, ""
+	}
+	for _, f := range a.P.Funcs {
+		if funcPkgPath(f) != modPath {
+			continue
+		}
+		for _, b := range f.Blocks {
+			for _, in := range b.Instrs {
+				ci, ok := in.(ssa.CallInstruction)
+				if !ok {
+					continue
+				}
+				sc := ci.Common().StaticCallee()
+				if sc == nil || sc.Name() != "Dispose" || !strings.Contains(funcID(sc), "LeanHelixTerm") {
+					continue
+				}
+				nDisp++
+				ok2, why := judge(in, 0)
+				r.Check("Z2.sites", props("C10", "C16", "C13"), "the current term is disposed (its election timer stopped, its message log cleared) only when the worker leaves its loop or when the term is replaced right afterwards: a term that stays installed keeps its log, so nothing it accepted is accepted or answered a second time", shortName(f), a.P.InstrPos(in), ok2, why, "P")
+			}
+		}
+	}
+	if nDisp == 0 {
+		r.Undecided = append(r.Undecided, "no LeanHelixTerm.Dispose call in the worker (Z2.sites anchor)")
 	}
 }
